@@ -28,7 +28,7 @@ PROP = {
                   "clamp_length*: input bit-identical inside the bounds, otherwise same direction on the bound. any_ortho*: orthogonal / orthonormal to 16 u. Angle-derived tolerances: the "
                   "interval of the angle glam may have computed (6e-7 polynomial arccos + 16u/max(sin, sqrt u); atan2 for obtuse vector slerp) is pushed through the reference, plus "
                   "16 u (1 + (|1-s|+|s|)/sin theta) rounding; rotation arcs 34 u/sin theta; where a bound exceeds 1 rad only the well-conditioned clauses are judged. Within rounding slack "
-                  "of a documented threshold either branch's documented answer is accepted. Headroom of every comparison is recorded. Exploration, not proof.",
+                  "of a documented threshold either branch's documented answer is accepted. Headroom of every comparison is recorded. The same sub-checks also run against the SSE2 build with glam-assert compiled in: the generated inputs satisfy the documented preconditions, so a panic there is a failure. Exploration, not proof.",
     "level_note": "Trusted: rustc f64 arithmetic and std sin/cos/atan2/sqrt in f64, the double-double routines of vcore, proptest, the harness. Quaternion results are moved out with to_array and "
                   "rotated by the harness's own quaternion formula. NEON/wasm32 backends cannot be built here.",
     "design_ref": "DESIGN.md section 5 C12",
